@@ -203,6 +203,9 @@ def havoc_heap(eng, s, v, field):
             else:
                 attrs = [a for a in cell if not a.startswith("#")]
             for a in attrs:
+                if a not in cell:
+                    s = s.with_cell(v.base, a, Opq(eng.fresh(f"{v.base}.{a}", "V")))
+                    continue
                 if a in cell:
                     cur = cell[a]
                     if isinstance(cur, Ref):
